@@ -151,6 +151,26 @@ Theorem C18_dc_restore_linear : forall n F,
 Proof. exact wrapped_lin. Qed.
 Print Assumptions C18_dc_restore_linear.
 
+(* the public keyword in_ts of FilterAnalyzer.filtfilt: the series that is filtered is in_ts; its mean
+   is kept, the analyzer's own data play no part, the map in_ts -> output is linear, and (below)
+   the output axis is that of in_ts *)
+Theorem C18_filtfilt_in_ts_mean : forall n F own x, (0 < n)%nat ->
+  mean (filtfilt_method n F own (Some x)) n == mean x n.
+Proof. exact filtfilt_in_ts_mean. Qed.
+Theorem C18_filtfilt_in_ts_independent_of_own : forall n F own own' x t,
+  filtfilt_method n F own (Some x) t = filtfilt_method n F own' (Some x) t.
+Proof. exact filtfilt_in_ts_indep. Qed.
+Theorem C18_filtfilt_in_ts_linear : forall n F own,
+  (forall a b x y t, (t < n)%nat -> F (fun s => a * x s + b * y s) t == a * F x t + b * F y t) ->
+  forall a b x y t, (t < n)%nat ->
+  filtfilt_method n F own (Some (fun s => a * x s + b * y s)) t
+  == a * filtfilt_method n F own (Some x) t + b * filtfilt_method n F own (Some y) t.
+Proof. exact filtfilt_in_ts_lin. Qed.
+Print Assumptions C18_filtfilt_in_ts_linear.
+Theorem C18_filtfilt_in_ts_axis : forall own i, rate_consistent i ->
+  filtfilt_method_axis own (Some i) = Some (mk_axis (in_shape i) (in_delta i) (in_t0 i) (in_unit i)).
+Proof. exact filtfilt_in_ts_axis. Qed.
+
 (* fir = any chain of wrapped stages (low-pass, then high-pass): mean kept, linear *)
 Theorem C18_fir_chain_mean : forall n, (0 < n)%nat -> forall Fs x, mean (run n Fs x) n == mean x n.
 Proof. exact run_mean. Qed.
